@@ -1,0 +1,103 @@
+//go:build verif
+
+// Contracts for package modbus, checked by /verif/govc (contract-based deductive verification).
+// This file contains comments only; it is compiled only under the build tag "verif".
+
+package modbus
+
+// ---------------------------------------------------------------------------------------------
+// Environment contracts (ASSUMED): transport, context, hooks.  The reply stream is ghost state
+// (spec/transport.spec); every Read delivers the next n bytes of it, any n, any error.
+
+//@ iface net.Conn.Read(p []byte) (n int, err error)
+//@   modifies p
+//@   ensures 0 <= n && n <= len(p) && n <= streamLen - old(streamPos)
+//@   ensures forall k in 0..n :: p[k] == stream[old(streamPos) + k]
+//@   ensures forall k in n..len(p) :: p[k] == old(p[k])
+//@   ghostset streamPos := old(streamPos) + n
+//@   ghostset reads := old(reads) + 1
+//@   ghostset lastN := n
+//@   ghostset lastErr := err
+//@   ghostset lastBuf := p
+
+//@ iface net.Conn.Write(p []byte) (n int, err error)
+//@   requires[C19] bwCount > writes ==> p == bwBuf
+//@   modifies nothing
+//@   ghostset writes := old(writes) + 1
+
+//@ iface net.Conn.SetWriteDeadline(t time.Time) (err error)
+//@   modifies nothing
+
+//@ iface net.Conn.SetReadDeadline(t time.Time) (err error)
+//@   modifies nothing
+
+//@ iface net.Conn.Close() (err error)
+//@   modifies nothing
+
+//@ iface context.Context.Done() (ch <-chan struct{})
+//@   modifies nothing
+
+//@ iface context.Context.Err() (err error)
+//@   modifies nothing
+//@   ensures err != nil && dyntype(err) != *ClientError
+//@   ghostset ctxErr := err
+
+//@ iface modbus.ClientHooks.BeforeWrite(toWrite []byte)
+//@   modifies nothing
+//@   ghostset bwCount := old(bwCount) + 1
+//@   ghostset bwBuf := toWrite
+
+//@ iface modbus.ClientHooks.AfterEachRead(received []byte, n int, err error)
+//@   requires[C19] n == lastN && err == lastErr && hookReads + 1 == reads
+//@   requires[C19] aliases(received, lastBuf, 0, lastN)
+//@   modifies nothing
+//@   ghostset hookReads := old(hookReads) + 1
+
+//@ iface modbus.ClientHooks.BeforeParse(received []byte)
+//@   requires[C19] bpCount == parseCount && received == lastDoRes
+//@   modifies nothing
+//@   ghostset bpCount := old(bpCount) + 1
+//@   ghostset bpBuf := received
+
+//@ iface packet.Request.Bytes() (res []byte)
+//@   modifies nothing
+
+//@ iface packet.Request.ExpectedResponseLength() (res int)
+//@   modifies nothing
+
+//@ iface modbus.Client.timeNow() (t time.Time)
+//@   modifies nothing
+
+//@ iface modbus.Client.asProtocolErrorFunc(data []byte) (err error)
+//@   candidates packet.AsTCPErrorPacket, packet.AsRTUErrorPacket
+//@   modifies nothing
+
+//@ iface modbus.Client.parseResponseFunc(data []byte) (res packet.Response, err error)
+//@   candidates packet.ParseTCPResponse, packet.ParseRTUResponseWithCRC
+//@   requires[C19] bpCount > parseCount ==> data == bpBuf
+//@   modifies nothing
+//@   ghostset parseCount := old(parseCount) + 1
+
+// ---------------------------------------------------------------------------------------------
+// client.go
+
+//@ func (c *Client) do(ctx context.Context, data []byte, expectedLen int) (res []byte, err error)
+//@   requires c != nil && c.conn != nil && validClient(c)
+//@   requires reads == hookReads && bwCount == writes
+//@   safety[C08,C07,C19]
+//@   modifies[C08] nothing
+//@   fresh[C07] res
+//@   ensures[C07,C12,C19] err == nil ==> len(res) == streamPos - old(streamPos) && 1 <= len(res) && len(res) <= 260 && forall k in 0..len(res) :: res[k] == stream[old(streamPos) + k]
+//@   ensures[C07] err == nil ==> len(res) >= expectedLen || errIs(lastErr, io.EOF)
+//@   ensures[C08] err != nil ==> isnil(res)
+//@   ensures[C08.classify] err != nil ==> dyntype(err) == *ClientError || err == ctxErr
+//@   ensures[C19] c.hooks != nil ==> hookReads - old(hookReads) == reads - old(reads)
+//@   ensures[C19] c.hooks != nil && writes > old(writes) ==> bwCount - old(bwCount) == writes - old(writes)
+//@   ensures[C19] writes - old(writes) <= 1 && bpCount == old(bpCount) && parseCount == old(parseCount)
+//@   ghostset lastDoRes := res
+//@   loop 0
+//@     modifies received
+//@     invariant 0 <= total && total <= 260 && total == streamPos - old(streamPos)
+//@     invariant forall k in 0..total :: received[k] == stream[old(streamPos) + k]
+//@     invariant c.hooks != nil ==> hookReads - old(hookReads) == reads - old(reads)
+//@     invariant writes == old(writes) + 1 && bwCount == old(bwCount) + ite(c.hooks != nil, int(1), int(0)) && bpCount == old(bpCount) && parseCount == old(parseCount)
